@@ -157,10 +157,11 @@ const (
 	c09AnsNX           // NXDOMAIN, not cached -> per-waiter copy path
 	c09AnsEmpty        // NOERROR, no answer (cached with the 120 s floor)
 	c09AnsCname        // CNAME to a tagged target + tagged address RR
+	c09AnsTTL2         // one tagged RR, TTL 2: expires long before the janitor's next pass
 	c09AnsKinds
 )
 
-var c09AnsKindNames = []string{"addr", "ttl0", "nx", "empty", "cname"}
+var c09AnsKindNames = []string{"addr", "ttl0", "nx", "empty", "cname", "ttl2"}
 
 func c09TaggedRR(owner string, qname string, qtype uint16, ttl uint32) dnsmessage.RR {
 	tag := c09Tag(qname, qtype)
@@ -249,6 +250,8 @@ func c09BuildAnswer(q dnsmessage.Question, id uint16, kind int) *dnsmessage.Msg 
 		m.Answer = []dnsmessage.RR{c09TaggedRR(q.Name, q.Name, q.Qtype, 60)}
 	case c09AnsTTL0:
 		m.Answer = []dnsmessage.RR{c09TaggedRR(q.Name, q.Name, q.Qtype, 0)}
+	case c09AnsTTL2:
+		m.Answer = []dnsmessage.RR{c09TaggedRR(q.Name, q.Name, q.Qtype, 2)}
 	case c09AnsNX:
 		m.Rcode = dnsmessage.RcodeNameError
 	case c09AnsEmpty:
@@ -285,7 +288,13 @@ func c09CheckRR(rr dnsmessage.RR, name string, qtype uint16) error {
 			return fmt.Errorf("AAAA %s %v is not an answer to %s/%d", owner, b.AAAA, lname, qtype)
 		}
 	case *dnsmessage.TXT:
-		if len(b.Txt) != 1 || b.Txt[0] != c09TagTxt(name, qtype) || (owner != lname && owner != cname) {
+		padOK := true
+		for _, p := range b.Txt[min(1, len(b.Txt)):] {
+			if strings.Trim(p, "p") != "" {
+				padOK = false
+			}
+		}
+		if len(b.Txt) < 1 || b.Txt[0] != c09TagTxt(name, qtype) || !padOK || (owner != lname && owner != cname) {
 			return fmt.Errorf("TXT %s %q is not an answer to %s/%d", owner, b.Txt, lname, qtype)
 		}
 	case *dnsmessage.CNAME:
@@ -436,6 +445,74 @@ type c09World struct {
 	calls       []*c09Call
 	factCalls   []*c09FactoryCall
 	violations  []string
+
+	// onForward, if set, is consulted at every ForwardDNS entry (on the caller's
+	// goroutine, w.mu not held); a non-empty result is recorded as a violation.
+	onForward func(f *c09Fwd, req *dnsmessage.Msg) string
+
+	// CacheDeleteCallback parking: when armed, the next invocation of the delete
+	// callback (an expired entry evicted by a client's own cache lookup) parks.
+	parkDeleteArmed bool
+	deleteParks     []*c09DeletePark
+}
+
+type c09DeletePark struct {
+	key      string
+	ch       chan struct{}
+	released bool
+	returned bool
+}
+
+// cacheDeleteCallback is installed as DnsControllerOption.CacheDeleteCallback.
+func (w *c09World) cacheDeleteCallback(key string, _ *DnsCache) error {
+	w.mu.Lock()
+	if !w.parkDeleteArmed || w.aborted {
+		w.mu.Unlock()
+		return nil
+	}
+	w.parkDeleteArmed = false
+	p := &c09DeletePark{key: key, ch: make(chan struct{}, 1)}
+	w.deleteParks = append(w.deleteParks, p)
+	w.mu.Unlock()
+	select {
+	case <-p.ch:
+	case <-w.abortCh:
+	}
+	w.mu.Lock()
+	p.returned = true
+	w.mu.Unlock()
+	return nil
+}
+
+func (w *c09World) armDeletePark(on bool) {
+	w.mu.Lock()
+	w.parkDeleteArmed = on
+	w.mu.Unlock()
+}
+
+func (w *c09World) parkedDeletes() []*c09DeletePark {
+	w.mu.Lock()
+	defer w.mu.Unlock()
+	var out []*c09DeletePark
+	for _, p := range w.deleteParks {
+		if !p.released && !p.returned {
+			out = append(out, p)
+		}
+	}
+	return out
+}
+
+func (w *c09World) releaseDelete(p *c09DeletePark) {
+	w.mu.Lock()
+	p.released = true
+	w.mu.Unlock()
+	p.ch <- struct{}{}
+}
+
+func (w *c09World) deleteReturned(p *c09DeletePark) bool {
+	w.mu.Lock()
+	defer w.mu.Unlock()
+	return p.returned
 }
 
 func c09NewWorld() *c09World { return &c09World{abortCh: make(chan struct{})} }
@@ -530,6 +607,14 @@ func (f *c09Fwd) ForwardDNS(ctx context.Context, data []byte) (*dnsmessage.Msg, 
 	if w.aborted {
 		w.mu.Unlock()
 		return nil, errC09Abort
+	}
+	if hook := w.onForward; hook != nil {
+		w.mu.Unlock()
+		v := hook(f, req)
+		w.mu.Lock()
+		if v != "" {
+			w.violate("%s", v)
+		}
 	}
 	call := &c09Call{fwd: f, serial: len(w.calls), req: req, ctx: ctx, ch: make(chan c09Action, 1)}
 	w.calls = append(w.calls, call)
